@@ -102,6 +102,71 @@ def tune_c07(rng, k):
     k["retract"] = rng.choice(["e", "e", "fw"])
 
 
+def tune_c06(rng, k):
+    k["nregions"] = rng.choice([1, 2, 3])
+    conf = gen.rand_deferral_config(rng)
+    k["settings"] = {"extendedExcludeGcodes": conf,
+                     "enteringExcludedRegionGcode": gen.rand_script(rng, "ENTER"),
+                     "exitingExcludedRegionGcode": gen.rand_script(rng, "EXIT")}
+    if rng.random() < 0.2:
+        del k["settings"]["extendedExcludeGcodes"]          # plugin defaults
+        conf = [{"gcode": g} for g in ("G4", "M204", "M205", "M117", "M73")]
+    k["configured"] = [e["gcode"] for e in conf]
+    k["w"]["other"] = 30
+    k["w"]["settings_change"] = 1.5
+    k["w"]["at_switch"] = 2
+    k["w"]["terminal"] = 1
+    k["aim_w"] = [45, 5, 10, 40]
+    k["p_end_inside"] = 0.4
+    k["p_abort"] = 0.3
+    k["prints"] = rng.choice([1, 2, 3])
+    k["w"]["mode"] = 0
+    k["w"]["units"] = 0
+    k["w"]["arc"] = 0
+
+
+def tune_c14(rng, k):
+    k["nregions"] = rng.choice([1, 2, 3])
+    k["w"]["at_switch"] = rng.choice([3, 6, 10])
+    k["w"]["at_noop"] = 3
+    k["w"]["sd_stream_at"] = 1.5
+    k["after_enable_moves"] = True
+    k["axes_w"] = [40, 20, 20, 10, 10]
+    if rng.random() < 0.5:
+        k["w"]["mode"] = 3
+    if rng.random() < 0.4:
+        k["custom_at"] = rng.choice(["only", "both"])
+        acts = list(gen.CUSTOM_AT)
+        if k["custom_at"] == "both":
+            from .worlds.printworld import DEFAULT_AT_ACTIONS
+            acts = acts + list(DEFAULT_AT_ACTIONS)
+            rng.shuffle(acts)
+        k["settings"] = {"atCommandActions": acts}
+    if rng.random() < 0.3:
+        k["settings"] = dict(k.get("settings") or {}, exitingExcludedRegionGcode=gen.rand_script(rng, "EXIT"))
+    k["w"]["g92xyz"] = 0
+    k["aim_w"] = [45, 5, 10, 40]
+
+
+def tune_c15(rng, k):
+    k["nregions"] = rng.choice([1, 2, 3])
+    k["p_end_inside"] = 0.7
+    k["p_abort"] = 0.1
+    k["hook_repeats"] = True
+    k["hook_after_end"] = True
+    k["w"]["script_hook"] = 2
+    k["nops"] = rng.choice([5, 8, 15, 30])
+    k["prints"] = rng.choice([1, 2, 3])
+    if rng.random() < 0.5:
+        conf = gen.rand_deferral_config(rng)
+        k["settings"] = {"extendedExcludeGcodes": conf,
+                         "exitingExcludedRegionGcode": gen.rand_script(rng, "EXIT")}
+        k["configured"] = [e["gcode"] for e in conf]
+        k["w"]["other"] = 20
+    k["w"]["g92xyz"] = 0
+    k["aim_w"] = [45, 5, 10, 40]
+
+
 RULE_STATE = ("distinct (abstract filter state, op kind) pairs reached, abstract state = (print active, "
               "exclusion enabled, excluding, retraction none/E/FW x recovery owed x combinable, deferred "
               "commands pending, XYZ mode, units, number of regions 0/1/2+, command source, command class)")
@@ -123,3 +188,106 @@ register(PrintCheck("C05", tune_c05, "retraction-depth ledger d = highwater(p) -
                     "commands never raise the high-water mark, G10/G11 parity and parameters preserved"))
 register(PrintCheck("C07", tune_c07, "every synthesised G0/G1/G10/G11/G92/merged command passes a strict "
                     "RS274 plain-decimal reader and reads identically with Marlin number semantics"))
+register(PrintCheck("C06", tune_c06, "per episode (tracked on the input stream): enter script first and once; "
+                    "configured codes withheld; closing output == DeferralModel.flush() then exit script then only "
+                    "re-positioning commands, for all four ways an episode ends; nothing leaks into later "
+                    "episodes or prints; configured codes pass unchanged outside episodes"))
+register(PrintCheck("C14", tune_c14, "model of the configured @-actions: while disabled every input move is the "
+                    "last wire command of its step; disable mid-episode sends flush + exit script + "
+                    "re-positioning through the comm object and F == U afterwards; after enable the "
+                    "suppress/forward decision equals the tracker's (true position of U); non-matching or "
+                    "SD-streaming @-commands leave a structural state snapshot unchanged and send nothing"))
+register(PrintCheck("C15", tune_c15, "script-hook return values against the lifecycle/episode model: "
+                    "(prefix, None) exactly once iff gcode/afterPrintDone while active and an episode is open, "
+                    "prefix == flush + exit script + re-positioning and executing it on a copy of F gives "
+                    "F.xyz == U.xyz, F.E == U.E; every other invocation returns None"))
+
+
+# --- API world -------------------------------------------------------------------------------------------
+class ApiCheck(object):
+    world = "API"
+    runs = (6000, 400000)
+
+    def __init__(self, prop, rule):
+        self.prop = prop
+        self.rule = rule
+        self.rule_state = ("distinct (print active, shrinking allowed, clear-after-print, list size 0..3+, op kind, "
+                           "request command, request kind) tuples reached")
+
+    def generate(self, rng):
+        from .gen_api import gen_api
+        return gen_api(rng, self.prop)
+
+    def execute(self, cfg, schedule):
+        from .worlds.apiworld import ApiWorld
+        w = ApiWorld(cfg, self.prop)
+        v = w.run(schedule)
+        inter = "".join({"api": "A", "api_get": "G", "event": "E", "settings": "S"}[op["op"]] for op in schedule)
+        return {"violation": v, "digest": w.digest(), "stats": w.stats, "abs_states": w.abs_states,
+                "ncalls": len(schedule), "sim_time": 0.0, "interleaving": hash_str(inter)}
+
+
+register(ApiCheck("C12", "witness points (corners, edge and interior points, 64 boundary directions) that the "
+                  "filter reports excluded before a request made during an active print with shrinking disallowed "
+                  "are still excluded after it; deletes are answered 409; a request answered with an error "
+                  "leaves the list deep-equal. rect/rect with zero tolerance, circle-involving pairs with witnesses "
+                  "pulled 1e-9*scale inside"))
+register(ApiCheck("C13", "after every step: ids unique; GET payload (real jsonify) == registry model (order "
+                  "included); response status as the model predicts; list changed => exactly one new notification; "
+                  "every notification's payload == current list"))
+
+
+# --- C09 -------------------------------------------------------------------------------------------------
+class FuzzCheck(object):
+    world = "FUZZ"
+    prop = "C09"
+    runs = (5000, 300000)
+    rule = ("wide-grammar command streams after G28 through the live hooks (stub comm) and through "
+            "StreamProcessor.process_line on a snapshot: no exception leaves an entry point while the axes are "
+            "homed; live result is None, a suppress tuple or a non-empty list of non-empty str; offline result is "
+            "None or a str ending in the file's EOL")
+    rule_state = ("distinct (excluding, enabled, retraction recorded, deferred pending, XYZ mode, units, command "
+                  "class, raised) tuples reached")
+
+    def generate(self, rng):
+        from .worlds.fuzzworld import gen_fuzz
+        return gen_fuzz(rng)
+
+    def execute(self, cfg, schedule):
+        from .worlds.fuzzworld import FuzzWorld
+        w = FuzzWorld(cfg)
+        v = w.run(schedule)
+        inter = "".join(op["op"][0] for op in schedule)
+        return {"violation": v, "digest": w.digest(), "stats": w.stats, "abs_states": w.abs_states,
+                "ncalls": w.ncalls, "sim_time": 0.0, "interleaving": hash_str(inter)}
+
+
+register(FuzzCheck())
+
+
+# --- C11 -------------------------------------------------------------------------------------------------
+class LifeCheck(object):
+    world = "LIFECYCLE"
+    prop = "C11"
+    runs = (6000, 400000)
+    rule = ("lifecycle reference state machine driven by delivered events under an adversarial bus: plugin "
+            "active flag == model after every delivery; while inactive the gcode hook returns None, the script "
+            "hook None, the @-hook sends nothing and a structural state snapshot is unchanged by the call; "
+            "FILE_SELECTED empties the region list, an end event empties it iff the last delivered setting says "
+            "so, every other event leaves it unchanged; pause/resume and unrelated events change nothing")
+    rule_state = "distinct (entry point, event/code/script name, model active, clear-after / excluding) tuples"
+
+    def generate(self, rng):
+        from .worlds.lifeworld import gen_life
+        return gen_life(rng)
+
+    def execute(self, cfg, schedule):
+        from .worlds.lifeworld import LifeWorld
+        w = LifeWorld(cfg)
+        v = w.run(schedule)
+        inter = "".join(op["op"][0] for op in schedule)
+        return {"violation": v, "digest": w.digest(), "stats": w.stats, "abs_states": w.abs_states,
+                "ncalls": w.n, "sim_time": 0.0, "interleaving": hash_str(inter)}
+
+
+register(LifeCheck())
